@@ -986,6 +986,9 @@ class Origin:
         if callee is None:
             f = self.operand(t['func'], point, depth) if 'func' in t else ('unknown', 'fnptr')
             return ('call', ('indirect', f), args, (self.body.name, point[0]))
+        if callee == 'std::clone::Clone::clone' and t.get('arg_tys') and t['arg_tys'][0].startswith(('&std::vec::Vec<', '&mut std::vec::Vec<')):
+            # a cloned Vec is a new container with its own identity (it may be filtered independently of the original)
+            return ('call', callee, args, (self.body.name, point[0]))
         if callee in TRANSPARENT and len(args) > TRANSPARENT[callee]:
             return args[TRANSPARENT[callee]]
         if callee in INDEX_CALLS and len(args) == 2:
